@@ -284,10 +284,17 @@ class CQueue:
     queue.Queue: a blocking put waits for room, a put with a timeout may time
     out (queue.Full) when the scheduler fires the timeout."""
 
+    SCALE_CAP = 48  # small-scope abstraction: a bound of 1024 behaves, for streams 20x shorter, like 48
+
     def __init__(self, sched, maxsize=0):
         self.s = sched
         self.d = deque()
-        self.maxsize = maxsize or 0
+        # A bounded queue is modelled with at most SCALE_CAP slots.  Blocking puts are unaffected by
+        # the scale (they wait for room whatever the bound); a put that can give up (put_nowait /
+        # timeout) on a bounded inbox loses messages for some stream length and observer lag anyway -
+        # the scaled bound only brings that length within reach of the generated streams.
+        self.maxsize = min(maxsize, self.SCALE_CAP) if maxsize and maxsize > 0 else 0
+        self.declared_maxsize = maxsize or 0
         self.puts = 0
         self.put_log = []  # (item is a str marker, queue length before the put)
 
